@@ -157,8 +157,16 @@ func takeSnapshot(root string, entries []model.Entry, t TaskSpec) snapshot {
 		set[f] = string(b)
 	}
 	for _, g := range t.Globs {
-		for rel, content := range model.ReadAll(root, model.GlobFiles(entries, g)) {
-			set[rel] = content
+		matched := model.GlobFiles(entries, g)
+		read := model.ReadAll(root, matched)
+		for _, rel := range matched {
+			if content, ok := read[rel]; ok {
+				set[rel] = content
+			} else {
+				// a matched path that cannot be read (dangling link) is still part of the set of paths
+				set[rel] = "\x01unreadable"
+				missing = true
+			}
 		}
 	}
 	keys := make([]string, 0, len(set))
